@@ -852,3 +852,177 @@ def run_c14(rep, spec, verbose=False, only=None):
     return ex.obls
 
 from . import speclang
+
+
+# ---------------------------------------------------------------------------------------------------------------------
+# C07, translator half: value transfers copy.  GopherJS represents struct and array values as JavaScript objects, so a Go
+# value is copied only where the translator emits $clone (or a constructor).  Proof rule V-FRESH: in the emitted code of a
+# function, if every operand at a *transfer point* of a struct/array-typed VALUE (argument of a call, element of a
+# composite literal or of a variadic argument slice, value sent on a channel -- also from a select case --, value stored
+# in a map, initial value of a second variable, range value) is a fresh object -- `$clone(e, T)`, a constructor call, a
+# literal --, then no two Go variables of value type share a JavaScript object, which is Go's value semantics.  The side
+# condition is checked on the code the real compiler emits for a family of functions that put a struct / array value at
+# each kind of transfer point; pointer-typed operands (negative controls) must NOT be required to be copies.
+class VCase:
+    def __init__(self, name, gosrc, sinks=(), locals_=(), note='', check=None):
+        self.name, self.gosrc, self.sinks, self.locals, self.note = name, gosrc, tuple(sinks), tuple(locals_), note
+        self.check = check        # (JavaScript expression over the compiled package P, value Go's semantics gives): the replay
+
+C07_PRELUDE_GO = '''
+type S struct{ x, y int }
+type A [3]int
+type W struct{ s S; a A }
+func sink(s S) { s.x = 99 }
+func asink(a A) { a[0] = 99 }
+func vsink(ss ...S) { ss[0].x = 99; if len(ss) > 1 { ss[1].x = 98 } }
+func psink(p *S) {}
+func wsink(w W) { w.s.x = 99 }
+'''
+
+def c07_cases():
+    C = []
+    C.append(VCase('V_Assign', 'func V_Assign(a S) S { b := a; b.x = 7; return a }', locals_=('b',), check=('P.V_Assign(new P.S.ptr(1, 2)).x', '1')))
+    C.append(VCase('V_ArrAssign', 'func V_ArrAssign(a A) A { b := a; b[0] = 7; return a }', locals_=('b',), check=('P.V_ArrAssign([1, 2, 3])[0]', '1')))
+    C.append(VCase('V_Deref', 'func V_Deref(p *S) int { a := *p; a.x = 3; return p.x }', locals_=('a',), check=('P.V_Deref(new P.S.ptr(1, 2))', '1')))
+    C.append(VCase('V_Pass', 'func V_Pass(a S) int { sink(a); return a.x }', sinks=('sink',), check=('P.V_Pass(new P.S.ptr(1, 2))', '1')))
+    C.append(VCase('V_PassArr', 'func V_PassArr(a A) int { asink(a); return a[0] }', sinks=('asink',), check=('P.V_PassArr([1, 2, 3])', '1')))
+    C.append(VCase('V_PassNested', 'func V_PassNested(w W) int { wsink(w); return w.s.x }', sinks=('wsink',), check=('P.V_PassNested(new P.W.ptr(new P.S.ptr(1, 2), [1, 2, 3]))', '1')))
+    C.append(VCase('V_PassField', 'func V_PassField(w *W) int { sink(w.s); return w.s.x }', sinks=('sink',), check=('P.V_PassField(new P.W.ptr(new P.S.ptr(1, 2), [1, 2, 3]))', '1')))
+    C.append(VCase('V_PassElem', 'func V_PassElem(ss []S) int { sink(ss[0]); return ss[0].x }', sinks=('sink',)))
+    C.append(VCase('V_Variadic', 'func V_Variadic(a, b S) int { vsink(a, b); return a.x*1000 + b.x }', sinks=('vsink',), check=('P.V_Variadic(new P.S.ptr(1, 2), new P.S.ptr(3, 4))', '1003')))
+    C.append(VCase('V_Send', 'func V_Send(ch chan S, a S) { ch <- a }'))
+    C.append(VCase('V_SelSend', 'func V_SelSend(ch chan S, a S) { select { case ch <- a: default: } }'))
+    C.append(VCase('V_Lit', 'func V_Lit(a S) []S { return []S{a} }', check=('(function(){ var a = new P.S.ptr(1, 2); var r = P.V_Lit(a); a.x = 9; return r.$array[r.$offset].x; })()', '1')))
+    C.append(VCase('V_LitArrOfS', 'func V_LitArrOfS(a S) [2]S { return [2]S{a, a} }', check=('(function(){ var a = new P.S.ptr(1, 2); var r = P.V_LitArrOfS(a); a.x = 9; r[0].x = 5; return r[1].x; })()', '1')))
+    C.append(VCase('V_MapIns', 'func V_MapIns(m map[int]S, a S) { m[1] = a }'))
+    C.append(VCase('V_RangeVal', 'func V_RangeVal(ss []S) int { t := 0; for _, s := range ss { s.x = 5; t += s.x }; return t }', locals_=('s',)))
+    # (append is not a transfer point of the translator: $append copies the elements in the runtime, $internalAppend -> $copyArray)
+    # negative control: pointers are passed as they are
+    C.append(VCase('V_PtrPass', 'func V_PtrPass(p *S) int { psink(p); return p.x }', sinks=(), note='control'))
+    return C
+
+def _is_fresh_expr(n):
+    """syntactic forms that denote an object no other Go variable refers to"""
+    t = n.get('type')
+    if t == 'CallExpression':
+        c = n['callee']
+        if c.get('type') == 'Identifier' and c['name'] == '$clone':
+            return True
+        if c.get('type') == 'MemberExpression' and not c.get('computed') and c['property'].get('name') in ('zero',):
+            return True
+        return False
+    if t == 'NewExpression':
+        return True
+    if t in ('ObjectExpression', 'ArrayExpression', 'Literal', 'TemplateLiteral'):
+        return True
+    if t == 'ConditionalExpression':
+        return _is_fresh_expr(n['consequent']) and _is_fresh_expr(n['alternate'])
+    if t == 'SequenceExpression':
+        return _is_fresh_expr(n['expressions'][-1])
+    return False
+
+def _src(n):
+    loc = n.get('loc') or {}
+    return '%s:%s' % ((loc.get('start') or {}).get('line'), (loc.get('start') or {}).get('column'))
+
+def c07_transfer_points(fn, case):
+    """(description, operand node) for every transfer point of a value-typed operand in the emitted function"""
+    out = []
+    def walk(n):
+        if isinstance(n, list):
+            for x in n: walk(x)
+            return
+        if not isinstance(n, dict):
+            return
+        t = n.get('type')
+        if t == 'CallExpression':
+            c = n['callee']
+            if c.get('type') == 'Identifier' and c['name'] in case.sinks:
+                for i, a in enumerate(n['arguments']):
+                    if a.get('type') == 'NewExpression' and a['arguments'] and a['arguments'][0].get('type') == 'ArrayExpression':
+                        for j, el in enumerate(a['arguments'][0]['elements']):       # variadic arguments packed into a slice
+                            out.append(('variadic argument %d of %s' % (j, c['name']), el))
+                    else:
+                        out.append(('argument %d of %s' % (i, c['name']), a))
+            if c.get('type') == 'Identifier' and c['name'] == '$send' and len(n['arguments']) >= 2:
+                out.append(('value sent on a channel', n['arguments'][1]))
+            if c.get('type') == 'Identifier' and c['name'] == '$select' and n['arguments'] and n['arguments'][0].get('type') == 'ArrayExpression':
+                for k, cs in enumerate(n['arguments'][0]['elements']):
+                    if cs and cs.get('type') == 'ArrayExpression' and len(cs['elements']) == 2:
+                        out.append(('value sent in select case %d' % k, cs['elements'][1]))
+            if c.get('type') == 'MemberExpression' and not c.get('computed') and c['property'].get('name') == 'set' and len(n['arguments']) == 2 \
+               and n['arguments'][1].get('type') == 'ObjectExpression':
+                for pr in n['arguments'][1]['properties']:
+                    if pr.get('key', {}).get('name') == 'v':
+                        out.append(('value stored in a map', pr['value']))
+        if t == 'NewExpression' and n['arguments'] and n['arguments'][0].get('type') == 'ArrayExpression' \
+           and n['callee'].get('type') == 'Identifier' and n['callee']['name'].startswith(('sliceType', 'arrayType')) and not case.sinks:
+            for j, el in enumerate(n['arguments'][0]['elements']):
+                out.append(('element %d of a composite literal' % j, el))
+        if t == 'ReturnStatement' and n.get('argument') and n['argument'].get('type') == 'CallExpression' and n['argument']['callee'].get('name') == '$toNativeArray':
+            a = n['argument']['arguments']
+            if len(a) >= 2 and a[1].get('type') == 'ArrayExpression':
+                for j, el in enumerate(a[1]['elements']):
+                    out.append(('element %d of an array literal' % j, el))
+        if t == 'AssignmentExpression' and n['operator'] == '=' and n['left'].get('type') == 'Identifier' and n['left']['name'] in case.locals:
+            out.append(('initial value of %s' % n['left']['name'], n['right']))
+        if t == 'VariableDeclarator' and n.get('init') and n['id'].get('type') == 'Identifier' and n['id']['name'] in case.locals:
+            out.append(('initial value of %s' % n['id']['name'], n['init']))
+        for k, v in n.items():
+            if k != 'loc' and isinstance(v, (dict, list)): walk(v)
+    walk(fn.get('body'))
+    return out
+
+def c07_replay(case, gosrc):
+    """run the case through the real compiler and node: the value Go's semantics gives against what the emitted code gives"""
+    js, want = case.check
+    out, err = e2e.run(gosrc, 'console.log("GVCVAL " + String(%s));' % js)
+    got = None
+    for line in (out or '').splitlines():
+        if line.startswith('GVCVAL '):
+            got = line[7:].strip()
+    res = {'harness': 'the real compiler + prelude under node', 'expression': js, 'go_semantics': want, 'emitted_code_gives': got, 'violated_clauses': []}
+    if got is None:
+        res['violates'] = False; res['note'] = 'replay produced no value: %s' % ((err or '')[-300:],)
+        return res
+    if got != want:
+        res['violated_clauses'].append('value semantics: %s == %s in Go, the emitted code gives %s' % (js, want, got))
+    res['violates'] = bool(res['violated_clauses'])
+    return res
+
+def run_c07(rep, spec, verbose=False, only=None):
+    from .smt import Obligation
+    cases = c07_cases()
+    if only: cases = [c for c in cases if only in c.name]
+    if not cases:
+        return []
+    gosrc = 'package main\n\nfunc main() {}\n' + C07_PRELUDE_GO + '\n' + '\n'.join(c.gosrc for c in cases) + '\n'
+    with tempfile.TemporaryDirectory(prefix='gvc-pat-') as td:
+        keep = os.path.join(td, 'pkg.js')
+        out, err = e2e.run(gosrc, 'console.log("compiled")', keep=keep)
+        if out is None or not os.path.exists(keep):
+            rep.undecided.append(('C07 transfer-point cases', 'the real compiler did not produce output: %s' % (err or '')[-400:]))
+            return []
+        dump = run_jsdump([keep])
+    emitted = find_emitted(dump['pkg.js']['program'], {c.name for c in cases})
+    obls = []
+    for c in cases:
+        fn = emitted.get(c.name)
+        if fn is None:
+            rep.undecided.append(('pattern ' + c.name, 'function not found in the emitted package')); continue
+        pts = c07_transfer_points(fn, c)
+        if not pts and c.note != 'control':
+            rep.undecided.append(('pattern ' + c.name, 'no transfer point recognised in the emitted code (the shape of the emitted code changed)')); continue
+        rep.functions.append('emitted ' + c.name)
+        for k, (what, node) in enumerate(pts):
+            ok = _is_fresh_expr(node)
+            o = Obligation('pattern %s/fresh-operand#%d (%s)' % (c.name, k + 1, what), [], z3.BoolVal(ok), 'proof', func='pattern ' + c.name, src=_src(node))
+            o.status, o.answer, o.solver = ('discharged', 'unsat', 'rule V-FRESH (operand is a copy)') if ok else ('failed', 'sat', 'rule V-FRESH')
+            if not ok:
+                o.output = 'operand at %s is not a fresh copy: node type %s' % (_src(node), node.get('type'))
+                o.model = {}
+                if c.check:
+                    o.meta['replayer'] = (lambda ob, model, c=c, gosrc=gosrc: c07_replay(c, gosrc))
+            obls.append(o)
+    rep.extra_trusted.append('proof rule V-FRESH (value transfers copy): soundness argued in gvc/core/patterns.py, side conditions checked on the emitted code')
+    return obls
